@@ -358,6 +358,55 @@ def c_min(fn, which, target):
     return f
 
 
+def c_min_list(which):
+    """The minimisers to try are given as a LIST of the caller's (the
+    default is a tuple): the list is an argument like any other."""
+    def f():
+        from rig.routing_table import MinimisationFailedError
+        from rig.routing_table import remove_default_routes, \
+            ordered_covering
+        from rig.routing_table.minimise import minimise_table, \
+            minimise_tables
+
+        def call(table, methods):
+            n0 = len(methods)
+            try:
+                if which == "mt":
+                    out = minimise_table(table, None, methods)
+                else:
+                    out = minimise_tables({(0, 0): table,
+                                           (1, 0): some_table(1),
+                                           (1, 1): some_table(3)},
+                                          None, methods)
+            except MinimisationFailedError as e:
+                out = ("failed", e.final_length)
+            return (out, len(methods) - n0)
+        return with_args(lambda: (some_table(0),
+                                  [remove_default_routes.minimise,
+                                   ordered_covering.minimise]), call)
+    return f
+
+
+def c_route_partial():
+    """route() given allocations that lack one sink (a vertex that needs
+    nothing), and route() relying on its default for `allocations`."""
+    def f():
+        import random
+        from rig.place_and_route import route
+
+        def call(vr, nets, ma, co, pl, al, _rt):
+            random.seed(7)
+            al = dict(al)
+            al.pop("b", None)
+            before = sorted(al)
+            r1 = route(vr, nets, ma, co, pl, al)
+            random.seed(7)
+            r2 = route(vr, nets, ma, co, pl)
+            return (r1, r2, sorted(al) == before, sorted(al))
+        return with_args(lambda: routed(0, 20), call)
+    return f
+
+
 def c_oc_aliases():
     """ordered_covering() asked to go on minimising an already minimised
     table: the caller supplies the alias dictionary of the earlier result
@@ -596,6 +645,9 @@ def call_table():
         ("mt_unsorted", c_min("mt", 5, None)),
         ("oc_t", c_min("oc", 0, 3)),
         ("oc_aliases", c_oc_aliases()),
+        ("mt_list", c_min_list("mt")),
+        ("mts_list", c_min_list("mts")),
+        ("route_partial", c_route_partial()),
         ("mt", c_min("mt", 2, 1)),
         ("mts", c_min("mts", 1, None)),
         ("bitfield0", c_bitfield(0)),
